@@ -5,6 +5,7 @@ Engine P.  Sections:
                        + generic ones, single (n+1,) and composite (2,1,n+1) layout: R = Hyperplane(w).
                        reflection_across() is the reflection in w (involution, isometry, det -1, fixes the
                        wall, negates w), from_reflection(R) (Geodesic.from_reflection in H^2) gives the wall back
+  reflections-ideal-basis  the same walls given by n ideal points: Subspace / Geodesic / Segment .reflection_across()
   non-reflections      conjugates of rotations, identity, loxodromics, parabolic (H^2), rotary and glide
                        reflections are rejected with GeometryError
   coxeter-reflections  generators of hyperbolic_rep() of triangle groups (and rank-4 simplex groups):
@@ -23,6 +24,7 @@ import math
 import numpy as np
 
 from mc import lattice
+from mc.oracle import circles as orc
 from mc.oracle import hyp
 
 LATTICE5 = [-1.0, -0.4, 0.0, 0.5, 1.2]
@@ -185,6 +187,62 @@ def _case_reflection(case):
                 v.append(_V("from_reflection/geodesic", "Geodesic.from_reflection(reflection in %s) = %s is not the wall" % (_f(w), _f(e))))
     o = "ok|%s|%d" % (layout, int(round(10 * float(hyp.mink(ws[0], ws[0])))))
     return {"v": v, "t": t, "o": o, "nt": True}
+
+
+def wall_ideal_rows(w):
+    """n affinely independent ideal points (projective rows (1, e)) of the wall w^perp, from the Klein
+    flat {x : w1..n . x = w0}: m +- rho q_0, m + rho q_i."""
+    w = np.asarray(w, dtype=float)
+    n = w.shape[0] - 1
+    m, Q = orc.hyperplane_flat(w)
+    rho = math.sqrt(1.0 - float(m @ m))
+    es = [m + rho * Q[:, 0], m - rho * Q[:, 0]] + [m + rho * Q[:, i] for i in range(1, n - 1)]
+    return np.array([[1.0] + [float(x) for x in e] for e in es])
+
+
+def case_reflection_ideal(case):
+    import warnings
+    with warnings.catch_warnings(), np.errstate(all="ignore"):
+        warnings.simplefilter("ignore")      # the library divides by zero on walls through the origin
+        return _case_reflection_ideal(case)
+
+
+def _case_reflection_ideal(case):
+    """The wall is given by an ideal basis (Subspace / Geodesic / Segment) instead of a normal."""
+    from geometry_tools import hyperbolic as H
+    n, ctor = case["n"], case["ctor"]
+    w = np.array(case["normal"], dtype=float)
+    rows = wall_ideal_rows(w)
+    if ctor == "Subspace":
+        obj = H.Subspace(rows.copy())
+    elif ctor == "Geodesic":
+        obj = H.Geodesic(H.Point(rows[0].copy()), H.Point(rows[1].copy()))
+    else:       # Segment between two interior points of the wall
+        a = 0.7 * rows[0] + 0.3 * rows[1]
+        b = 0.2 * rows[0] + 0.8 * rows[1]
+        obj = H.Segment(H.Point(a), H.Point(b))
+    tag = "%s(ideal basis of the wall of %s)" % (ctor, _f(w))
+    try:
+        R = obj.reflection_across()
+    except np.linalg.LinAlgError as e:
+        if abs(w[0]) <= 1e-12:     # same finding class as the NaN matrix: the wall passes through the origin
+            return {"v": [_V("reflection-ideal-basis/reflection_across/wall-through-origin", "%s: reflection_across raises LinAlgError: %s" % (tag, e))],
+                    "t": 1, "o": "LinAlgError", "nt": True}
+        raise
+    M = np.asarray(R.proj_data, dtype=float)
+    v = check_reflection(H, w, np.vstack([w[None, :], rows]), M, R, tag) if _finite(M) else \
+        [_V("reflection/reflection_across/shape-or-non-finite", "%s: matrix %r" % (tag, M))]
+    if not v:
+        d = np.asarray(obj.spacelike_complement().proj_data, dtype=float)
+        e = float(hyp.proj_sin_err(d, w)) if d.shape == w.shape and _finite(d) else 1.0
+        if not e <= 1e-7:
+            v.append(_V("reflection/spacelike_complement", "%s: spacelike_complement() = %s is not the normal" % (tag, _f(d))))
+    through = abs(w[0]) <= 1e-12
+    for x in v:
+        x["key"] = ("reflection-ideal-basis/reflection_across/wall-through-origin" if through
+                    else x["key"].replace("reflection/", "reflection-ideal-basis/", 1))
+    v = v[:1] if through else v
+    return {"v": v, "t": 4, "o": "%s|%s|%d" % (ctor, "origin" if through else "generic", int(round(10 * float(hyp.mink(w, w))))), "nt": True}
 
 
 # ------------------------------------------------------------------------------------------
@@ -396,8 +454,16 @@ def reflection_cases(n, values, ngen, seed):
         yield {"n": n, "layout": "composite", "normals": [ws[i], ws[(i + 1) % len(ws)]]}
 
 
+def reflection_ideal_cases(q, seed):
+    for n in (2, 3, 4):
+        values = LATTICE5 if (n <= 3 or not q) else LATTICE3
+        for w in lattice_normals(n, values) + generic_normals(n, 6 if q else 24, seed):
+            for ctor in (["Subspace", "Geodesic", "Segment"] if n == 2 else ["Subspace"]):
+                yield {"n": n, "normal": w, "ctor": ctor}
+
+
 def _points(n, q, seed):
-    return [list(map(float, p)) for p in lattice.klein_points(n, m_generic=6 if q else 18, seed=seed, rmax=0.9)]
+    return [list(map(float, p)) for p in lattice.klein_points(n, m_generic=6 if q else 40, seed=seed, rmax=0.9 if q else 0.97)]
 
 
 def nonreflection_cases(q, seed):
@@ -415,7 +481,8 @@ def nonreflection_cases(q, seed):
 
 def fixed_cases(q, seed):
     for n in (2, 3, 4):
-        std = [("rotation", a) for a in ANGLES] + [("loxodromic", l) for l in LOX]
+        std = [("rotation", a) for a in ANGLES + ([] if q else [0.3, 1.2, 2.7])]
+        std += [("loxodromic", l) for l in LOX + ([] if q else [1.5, 3.0, 0.25])]
         if n == 2:
             std.append(("parabolic", 1))
         P = _points(n, q, seed)
@@ -456,7 +523,8 @@ def run(ctx):
                 "conjugate; every generator of the listed Coxeter groups; a case is non-trivial unless the isometry is the identity")
     ctx.assume("normals are spacelike with Minkowski norm > 0.2 (lattice coordinates are floats)")
     ctx.assume("composite normals use the layout (N, 1, n+1) that Hyperplane accepts; (N, n+1) is outside the property")
-    ctx.assume("conjugating isometries are origin_to() of lattice points with |k| <= 0.9; translation multipliers in {1.3, 2, 5, 0.5}")
+    ctx.assume("conjugating isometries are origin_to() of lattice points with |k| <= %s; translation multipliers in %s"
+               % ("0.9" if q else "0.97", "{1.3, 2, 5, 0.5}" if q else "{1.3, 2, 5, 0.5, 1.5, 3, 0.25}"))
     ctx.assume("'projectively fixed' = sine of the angle between a vector and its image <= 1e-6 (1e-3 for the parabolic, whose "
                "triple eigenvalue is resolved only to eps^(1/3) by any eigen-solver)")
     ctx.assume("Coxeter generators are checked only when they are reflections of the Minkowski form to 1e-8 (that is property C08)")
@@ -473,6 +541,10 @@ def run(ctx):
         ctx.product(name, "checks.c15:case_reflection", cases, chunk=32,
                     domains={"lattice": values, "spacelike normals": len(lattice_normals(n, values)), "generic normals": 6 if q else 24,
                              "layouts": ["(n+1,)", "(2,1,n+1)"]})
+    if want("reflections-ideal-basis"):
+        ctx.product("reflections-ideal-basis", "checks.c15:case_reflection_ideal", list(reflection_ideal_cases(q, seed)), chunk=32,
+                    domains={"walls": "the same normals; the wall is handed over as n ideal points (oracle: Klein flat w.x = w0)",
+                             "constructors": ["Subspace", "Geodesic (n=2)", "Segment (n=2)"]})
     if want("non-reflections"):
         ctx.product("non-reflections", "checks.c15:case_nonreflection", list(nonreflection_cases(q, seed)), chunk=32,
                     domains={"n": [2, 3, 4], "angles": ANGLES, "multipliers": LOX, "kinds": ["identity", "rotation", "loxodromic", "parabolic(n=2)", "rotoreflection(n>=3)", "glide"]})
